@@ -138,7 +138,7 @@ class Laws(Job):
 
 
 def jobs(tier):
-    K, N = (3, 3) if tier == "quick" else (5, 4)
+    K, N = (3, 3) if tier == "quick" else (6, 5)
     out = []
     for k in range(1, K + 1):
         for n in range(0, N + 1):
@@ -166,12 +166,12 @@ ASSUMPTIONS = ["numpy.ma environment model validated per path against numpy 1.26
 
 
 def bounds(tier):
-    return {"vectors": "1..3" if tier == "quick" else "1..5", "length": "0..3" if tier == "quick" else "0..4",
+    return {"vectors": "1..3" if tier == "quick" else "1..6", "length": "0..3" if tier == "quick" else "0..5",
             "entries": "free real in [-16,16] (flags, non-flag values, flag-valued floats) with a free mask bit; uint8 0..255"}
 
 
 LEVEL_TEXT = ("bounded symbolic model checking of the real qartod_compare/aggregate source: every entry is a free number with a "
               "free mask bit; z3 proves the roll-up equals the per-column worst flag, and the permutation / duplication / "
               "idempotence / grouping laws are decided between symbolic executions")
-LEVEL_NOTE = "bounds: k<=3/4 vectors, n<=3/4; uninitialised np.ma.empty cells are havoc symbols (result must not depend on them)"
+LEVEL_NOTE = "bounds: k<=3/6 vectors, n<=3/5; uninitialised np.ma.empty cells are havoc symbols (result must not depend on them)"
 TECHNIQUE = "symbolic execution of the real Python source over a modelled numpy + z3 (SMT, QF_LRA)"
